@@ -38,6 +38,7 @@ SIG_NOISE = "BayesianProblem.MAP|direct:vector-noise-cov:row-broadcast"
 SIG_PRIOR = "BayesianProblem.MAP|direct:vector-prior-cov:dot-product"
 SIG_OTHER = "BayesianProblem.MAP|direct"
 SIG_GEOM = "BayesianProblem.MAP|direct:matrix-model+nonidentity-geometry"
+SIG_NONLIN = "BayesianProblem.MAP|direct:LinearModel+nonlinear-geometry-map"
 NONID = ("mapped_lin", "mapped_sq", "range_mapped_lin", "kl", "step_mat")
 SIG_SAMPLE = "BayesianProblem._sampleMapCholesky"
 SIG_ROUTE = "BayesianProblem._check_posterior"
@@ -154,7 +155,12 @@ def np_cov_value(g):
 
 
 def build_gaussian(cuqi, mean, g, geometry=None):
-    kw = {g["param"]: np_cov_value(g)}
+    v = np_cov_value(g)
+    if g.get("int") and isinstance(v, np.ndarray):
+        v = v.astype(np.int64)
+    elif g.get("int") and isinstance(v, float):
+        v = int(v)
+    kw = {g["param"]: v}
     if geometry is not None:
         kw["geometry"] = geometry
     return cuqi.distribution.Gaussian(mean, **kw)
@@ -200,8 +206,23 @@ def build_problem(cuqi, meta):
             dg = step_geometry(cuqi, n, meta["reps"])
     else:
         n = A.shape[1]
+    dt = meta.get("dt")
+    A_in = A
+    if dt in ("int", "intcov"):
+        A_in = A.astype(np.int64)
+    elif dt == "float32":
+        A_in = A.astype(np.float32)
+    elif dt == "fortran":
+        A_in = np.asfortranarray(A)
+    elif dt == "view":                      # non-contiguous view into a larger buffer
+        big = np.full((2 * A.shape[0], 3 * A.shape[1]), 7.0)
+        big[::2, ::3] = A
+        A_in = big[::2, ::3]
+    elif dt == "readonly":
+        A_in = A.copy()
+        A_in.setflags(write=False)
     if form == "dense":
-        model = cuqi.model.LinearModel(A, range_geometry=rg, domain_geometry=dg)
+        model = cuqi.model.LinearModel(A_in, range_geometry=rg, domain_geometry=dg)
     elif form == "sparse":
         model = cuqi.model.LinearModel(sps.csr_matrix(A), range_geometry=rg, domain_geometry=dg)
     elif form == "func":
@@ -222,6 +243,10 @@ def build_problem(cuqi, meta):
         x = build_gaussian(cuqi, float(mean["val"]), meta["cx"], geometry=dg if dg is not None else n)
     else:
         mv = np.array(mean["val"], dtype=float)
+        if meta.get("dt") in ("int", "intcov"):
+            mv = mv.astype(np.int64)
+        elif meta.get("dt") == "readonly":
+            mv.setflags(write=False)
         mst = meta.get("mean_style", "ndarray")
         if mst == "list":
             mv = mv.tolist()
@@ -234,6 +259,12 @@ def build_problem(cuqi, meta):
         y = build_gaussian(cuqi, model @ x, meta["ce"])
     x.name, y.name = "x", "y"      # names are otherwise inferred from the caller's stack
     bv = np.array(meta["b"], dtype=float)
+    if meta.get("dt") in ("int", "intcov"):
+        bv = bv.astype(np.int64)
+    elif meta.get("dt") == "float32":
+        bv = bv.astype(np.float32)
+    elif meta.get("dt") == "readonly":
+        bv.setflags(write=False)
     if meta.get("data_style") == "list":
         bv = bv.tolist()
     elif meta.get("data_style") == "cuqiarray":
@@ -244,11 +275,21 @@ def build_problem(cuqi, meta):
         BP = cuqi.problem.BayesianProblem(y, x).set_data(y=bv)
     computed = {}
     if geom in NONID:
-        cols = [np.asarray(model.forward(e), dtype=float) for e in np.eye(n)]
-        T = np.column_stack(cols)
-        probe = np.arange(1, n + 1) / 2.0
-        linear = np.allclose(np.asarray(model.forward(probe)), T @ probe, rtol=1e-12, atol=1e-12) and np.allclose(np.asarray(model.forward(np.zeros(n))), 0)
-        computed["A_true"] = T if linear else None
+        # the true parameter-to-parameter map, written down independently of the model object under test
+        c = float(meta.get("c", 2))
+        if geom == "mapped_lin":
+            T, cols = c * A, c * A
+        elif geom == "range_mapped_lin":
+            T, cols = A / c, A / c
+        elif geom == "kl":
+            Pk = np.column_stack([np.asarray(dg.par2fun(e), dtype=float) for e in np.eye(n)])     # the geometry's expansion (C13)
+            T = cols = A @ Pk
+        elif geom == "step_mat":
+            T = cols = A @ np.kron(np.eye(n), np.ones((meta["reps"], 1)))
+        else:                                   # mapped_sq: x -> x^2 + x is not linear; its values at unit vectors are 2 e_i
+            T, cols = None, 2 * A
+        computed["A_true"] = T
+        computed["A_cols"] = cols               # what get_matrix() assembles by probing forward (repaired get_matrix)
     for key, dist in (("ce", BP.likelihood.distribution), ("cx", BP.prior)):
         if meta[key].get("compute_cov"):
             computed[key] = np.array(dist.compute_cov(), dtype=float)
@@ -262,6 +303,8 @@ def err_kind(e):
         return "LinAlg"
     if isinstance(e, ValueError):
         return "Value"
+    if isinstance(e, AttributeError):
+        return "Attr"
     return "Other:" + type(e).__name__
 
 
@@ -289,7 +332,7 @@ def c_gdesc(g, dim, computed=None):
 
 def c_obs(o):
     if isinstance(o, str):
-        return {"NotImpl": "ONotImpl", "Value": "OValue", "LinAlg": "OLinAlg"}.get(o, "OOther")
+        return {"NotImpl": "ONotImpl", "Value": "OValue", "LinAlg": "OLinAlg", "Attr": "OAttr"}.get(o, "OOther")
     return "(OVal %s)" % cqvec(o)
 
 
@@ -314,6 +357,10 @@ WITNESS_PRIOR = {"op": "map", "A": [[1, 2], [0, 1]], "b": [1, -1], "mean": {"kin
                  "cx": {"param": "cov", "kind": "vector", "val": [1, 2]}, "model": "dense", "geom": "default"}
 
 
+GEOM_FIXED = [False]      # state of fixes/C07_get_matrix_parameter_map.diff on the tree under test (probed in run)
+WITNESS_NONLIN = {"op": "map", "A": [[1, 2, 0], [0, 1, 1]], "b": [1, -1], "n": 3, "mean": {"kind": "vec", "val": [0.5, 1, -0.5]},
+                  "ce": {"param": "cov", "kind": "scalar", "val": 0.5}, "cx": {"param": "cov", "kind": "scalar", "val": 2},
+                  "model": "dense", "geom": "mapped_sq"}
 WITNESS_GEOM = {"op": "map", "A": [[1, 2, 0], [0, 1, 1]], "b": [1, -1], "n": 3, "c": 2, "mean": {"kind": "vec", "val": [0, 0, 0]},
                 "ce": {"param": "cov", "kind": "scalar", "val": 0.5}, "cx": {"param": "cov", "kind": "scalar", "val": 2},
                 "model": "dense", "geom": "mapped_lin"}
@@ -385,6 +432,51 @@ def run_map(cuqi, meta):
                     extras["wrap_ok"] = False
                     extras["hist"] = "after replacing the prior of the same problem object MAP() returned %s, the posterior mean is %s" % (
                         np.asarray(r3), [float(v) for v in exp3])
+                # in-place re-assignment of attributes of the SAME Gaussian objects: mean, then covariance (scaled by 4)
+                try:
+                    keep_mean, keep_cov = BP.prior.mean, BP.prior.cov
+                    BP.prior.mean = np.array(new_mean)
+                    r4 = quiet(BP.MAP)
+                    bad4 = not close_v([float(v) for v in np.asarray(r4)], exp3)
+                    g4 = dict(meta["cx"])
+                    g4["val"] = g4["val"] * 4 if g4["kind"] == "scalar" else (np.array(g4["val"]) * 4).tolist()
+                    BP.prior.cov = np_cov_value(g4)
+                    r5 = quiet(BP.MAP)
+                    exp5, _, _ = posterior_exact([[F(v) for v in row] for row in A_eff.tolist()], [F(v) for v in meta["b"]], [F(v) for v in new_mean],
+                                                 intended_cov(meta["ce"], m), intended_cov(g4, n))
+                    bad5 = not close_v([float(v) for v in np.asarray(r5)], exp5)
+                    BP.prior.cov = keep_cov
+                    BP.prior.mean = keep_mean
+                    r6 = quiet(BP.MAP)
+                    if bad4 or bad5 or not np.array_equal(np.asarray(r6), first):
+                        extras["wrap_ok"] = False
+                        extras["hist"] = "after re-assigning prior.mean / prior.cov on the same objects MAP() is not the estimate of the current problem (mean: %s, cov: %s, restored: %s)" % (
+                            not bad4, not bad5, np.array_equal(np.asarray(r6), first))
+                except Exception as e:
+                    extras["wrap_ok"] = False
+                    extras["hist"] = "re-assigning prior.mean / prior.cov on the same objects raised %r" % (e,)
+            # compute_cov() then re-assignment of the defining factor: the cached covariance must not survive
+            for key, dist, dim in (("cx", BP.prior, n), ("ce", BP.likelihood.distribution, m)):
+                g = meta[key]
+                if g.get("compute_cov") and g["param"] in ("sqrtprec", "prec", "sqrtcov") and g["kind"] in ("matrix", "scalar", "vector"):
+                    old_val = getattr(dist, g["param"])
+                    g2 = dict(g)
+                    g2["val"] = g2["val"] * 2 if g2["kind"] == "scalar" else (np.array(g2["val"]) * 2).tolist()
+                    setattr(dist, g["param"], np_cov_value(g2))
+                    try:
+                        quiet(BP.MAP)
+                        stale = True
+                    except NotImplementedError:
+                        stale = False
+                    except Exception:
+                        stale = False
+                    setattr(dist, g["param"], old_val if not hasattr(old_val, "copy") else old_val.copy())
+                    dist.compute_cov()
+                    r7 = quiet(BP.MAP)
+                    if stale or not np.allclose(np.asarray(r7), first, rtol=1e-10, atol=1e-12):
+                        extras["wrap_ok"] = False
+                        extras["hist"] = "after compute_cov() and re-assignment of %s.%s MAP() %s" % (
+                            key, g["param"], "used the stale cached covariance instead of refusing" if stale else "does not come back to the first estimate once restored")
     except Exception as e:
         obs = err_kind(e)
         extras["wrap_ok"] = True
@@ -445,6 +537,12 @@ def known_witnesses(ctx):
         out[SIG_GEOM] = (bool(bad), bad or "witness returns the posterior mean (or is refused)")
     except Exception as e:
         out[SIG_GEOM] = (False, "witness call now fails: %r" % (e,))
+    try:
+        obs, A_eff, m, n, computed, extras, BP = run_map(cuqi, WITNESS_NONLIN)
+        bad = map_oracle(cuqi, WITNESS_NONLIN, obs, A_eff, m, n, BP, computed)
+        out[SIG_NONLIN] = (bool(bad), bad or "witness: the closed form is refused or is a maximiser")
+    except Exception as e:
+        out[SIG_NONLIN] = (False, "witness call now fails: %r" % (e,))
     # non-smooth prior: the maximiser of the witness posterior is (0, 0); MAP() returns normally with another point
     try:
         BP = build_classes(cuqi, WITNESS_NONSMOOTH)
@@ -607,7 +705,21 @@ def lattice_map(ctx):
                 for (m, n) in [(2, 3), (3, 3), (3, 2)]:
                     cells.append(dict(m=m, n=n, ke="factor" if side != "prior" else "matrix", kx="factor" if side != "noise" else "matrix",
                                       pe=par if side != "prior" else "cov", px=par if side != "noise" else "cov", fac=fac,
-                                      model="dense", geom="default", mean="vec", cce=side != "prior", ccx=side != "noise"))
+                                      model="dense", geom="default", mean="vec", cce=side != "prior", ccx=side != "noise", history=(m == 3 and n == 3)))
+    # 12. dtype and memory layout of every input (integer / float32 / Fortran / strided view / read-only; integer covariances)
+    for dtk in ("int", "intcov", "float32", "fortran", "view", "readonly"):
+        for ke, kx in [("matrix", "matrix"), ("vector", "vector"), ("scalar", "scalar")]:
+            for (m, n) in [(2, 3), (3, 2)]:
+                cells.append(dict(m=m, n=n, ke=ke, kx=kx, pe="cov", px="cov", model="dense" if dtk != "float32" else "sparse", geom="default",
+                                  mean="vec", dt=dtk, history=(dtk in ("readonly", "view"))))
+    # 13. falsy-but-legitimate values: zero data, zero prior mean with a zero / 0.0 initial guess
+    for ke, kx in [("matrix", "matrix"), ("scalar", "vector")]:
+        for (m, n) in [(2, 3), (3, 2)]:
+            cells.append(dict(m=m, n=n, ke=ke, kx=kx, pe="cov", px="cov", model="dense", geom="default", mean="vec", falsy="b"))
+            cells.append(dict(m=m, n=n, ke=ke, kx=kx, pe="cov", px="cov", model="dense", geom="default", mean="vec", falsy="x0", x0arg="scalar", disp=False))
+    # 14. scipy-sparse covariance with ONE stored entry (1x1): np.size == 1 -> C.ravel() -> AttributeError (a refusal)
+    for (m, n, ke, kx) in [(1, 2, "sparse", "scalar"), (1, 1, "sparse", "matrix"), (2, 1, "matrix", "sparse"), (1, 1, "sparse", "sparse"), (1, 3, "sparse", "vector")]:
+        cells.append(dict(m=m, n=n, ke=ke, kx=kx, pe="cov", px="cov", model="dense", geom="default", mean="vec", single=True))
     # 6. matrix model + non-identity geometry (finding ..|matrix-model+nonidentity-geometry; step_mat is a refusal)
     for geom in NONID:
         for (m, n) in [(2, 3), (3, 3), (3, 2)]:
@@ -648,7 +760,7 @@ def instantiate(rng, c, op="map"):
         # sparse matrices with a single stored entry have np.size == 1 (nnz): outside the lattice
         bad = False
         for g in (meta["ce"], meta["cx"]):
-            if g["kind"] == "sparse" and np.count_nonzero(np.array(g["val"])) <= 1:
+            if g["kind"] == "sparse" and np.count_nonzero(np.array(g["val"])) <= 1 and not c.get("single"):
                 bad = True
         if bad:
             continue
@@ -665,8 +777,10 @@ def instantiate(rng, c, op="map"):
             A_eff = A @ P
             if np.linalg.matrix_rank(A_eff) < min(m, n):
                 continue
-        elif c["geom"] == "step_mat":
-            return meta                      # shape mismatch: the call is refused before any system is formed
+        elif c["geom"] == "step_mat":        # unrepaired get_matrix: refused on the shape mismatch; repaired: a value -> keep it well conditioned
+            A_eff = A @ np.kron(np.eye(n), np.ones((meta["reps"], 1)))
+            if np.linalg.matrix_rank(A_eff) < min(m, n):
+                continue
         else:
             A_eff = A
         if c["geom"] in NONID and c["mean"] == "vec":
@@ -680,10 +794,26 @@ def instantiate(rng, c, op="map"):
                 meta["ce"]["style"] = c["se"]
             if c.get("sx"):
                 meta["cx"]["style"] = c["sx"]
+            if c.get("dt"):
+                # integer-valued inputs: every entry a multiple of 1/2 (covariances of 1/4) -> scale, then re-check conditioning
+                meta["A"] = (np.array(meta["A"]) * 2).tolist()
+                meta["b"] = [v * 2 for v in meta["b"]]
+                meta["mean"]["val"] = [v * 2 for v in meta["mean"]["val"]]
+                for g in (meta["ce"], meta["cx"]):
+                    g["val"] = g["val"] * 4 if g["kind"] == "scalar" else (np.array(g["val"]) * 4).tolist()
+                    if c["dt"] == "intcov":
+                        g["int"] = True
+                if not well_conditioned(meta, np.array(meta["A"], dtype=float), m, n):
+                    continue
+                meta["dt"] = c["dt"]
+            if c.get("falsy") == "b":
+                meta["b"] = [0.0] * m
+                if not any(meta["mean"]["val"]):
+                    meta["mean"]["val"] = [dy(rng, 1, 3) for _ in range(n)]
             if c.get("x0arg"):
                 xs = c["x0arg"]
                 pm = [float(v) for v in meta["mean"]["val"]] if meta["mean"]["kind"] == "vec" else [float(meta["mean"]["val"])] * n
-                val = {"prior": pm, "zeros": [0.0] * n, "scalar": dy(rng) + 0.25}.get(xs)
+                val = {"prior": pm, "zeros": [0.0] * n, "scalar": 0.0 if c.get("falsy") == "x0" else dy(rng) + 0.25}.get(xs)
                 if val is None:
                     val = [v + dy(rng, 1, 3) for v in pm]           # differs from the prior mean in every component
                 meta["x0arg"] = {"style": xs if xs in ("scalar", "list", "cuqiarray") else "ndarray", "val": val, "rel": xs}
@@ -724,6 +854,12 @@ def cell_name(c, op):
         extra += "/x0:%s,disp:%s" % (c["x0arg"], c["disp"])
     if c.get("fac"):
         extra += "/factor:" + c["fac"]
+    if c.get("single"):
+        extra += "/single-entry-sparse"
+    if c.get("dt"):
+        extra += "/dtype:" + c["dt"]
+    if c.get("falsy"):
+        extra += "/falsy:" + c["falsy"]
     return "%s/%s-%s/Ce:%s,Cx:%s%s/mean:%s/%s%s" % (op, c["model"], c["geom"], c["ke"], c["kx"], par, c["mean"], shape, extra)
 
 
@@ -757,6 +893,18 @@ def predict_unrepaired(meta, A_eff, m, n):
         return None
 
 
+def model_matrix(meta, A_eff, computed):
+    """the matrix get_matrix() hands to MAP in the state the tree is in: the stored one, or (C07 repair) the one assembled from forward"""
+    if meta.get("geom") in NONID and GEOM_FIXED[0]:
+        return computed["A_cols"]
+    return A_eff
+
+
+def probe_geom_fixed(cuqi):
+    obs, A_eff, m, n, computed, extras, BP = run_map(cuqi, WITNESS_GEOM)
+    return map_oracle(cuqi, WITNESS_GEOM, obs, A_eff, m, n, BP, computed) is None
+
+
 def case_map(cuqi, meta, fixed, cell):
     obs, A_eff, m, n, computed, extras, BP = run_map(cuqi, meta)
     fail = map_oracle(cuqi, meta, obs, A_eff, m, n, BP, computed)
@@ -769,14 +917,18 @@ def case_map(cuqi, meta, fixed, cell):
         pred = predict_unrepaired(meta, A_eff, m, n)
         if isinstance(obs, str) or pred is None or np.ndim(pred) != 1 or not close_v(obs, pred):
             sig = SIG_OTHER
+    A_model = np.array(model_matrix(meta, A_eff, computed), dtype=float)
     if fail and meta.get("geom") in NONID:
-        # the defect predicts exactly: the posterior mean of the problem with the STORED matrix in the place of the true map
+        # the defect predicts exactly: the posterior mean of the problem with the matrix get_matrix() hands out (the stored
+        # one, or with the C07 repair the one assembled at unit vectors) in the place of the true map
         try:
-            pred, _, _ = posterior_exact([[F(v) for v in row] for row in A_eff.tolist()], [F(v) for v in meta["b"]], full_x0(meta, n),
+            pred, _, _ = posterior_exact([[F(v) for v in row] for row in A_model.tolist()], [F(v) for v in meta["b"]], full_x0(meta, n),
                                          intended_cov(meta["ce"], m), intended_cov(meta["cx"], n))
-            sig = SIG_GEOM if (not isinstance(obs, str) and close_v(obs, pred)) else SIG_OTHER
+            ok = not isinstance(obs, str) and close_v(obs, pred)
+            sig = (SIG_NONLIN if meta["geom"] == "mapped_sq" else SIG_GEOM) if ok else SIG_OTHER
         except Exception:
             sig = SIG_OTHER
+    A_eff = A_model
     rel = bool(meta.get("scale")) and not isinstance(obs, str)
     if meta.get("x0arg") is not None or meta.get("disp") is not None:
         xa = meta.get("x0arg")
@@ -791,6 +943,10 @@ def case_map(cuqi, meta, fixed, cell):
             cbool(fixed), cnat(m), cnat(n), cqmat(A_eff.tolist()), cqvec(meta["b"]), cqvec(model_x0(meta, n)),
             c_gdesc(meta["ce"], m, computed.get("ce")), c_gdesc(meta["cx"], n, computed.get("cx")),
             cqvec(obs) if rel else c_obs(obs), cbool(extras["wrap_ok"]))
+    if not isinstance(obs, str) and meta.get("geom", "default") not in NONID:
+        # the hypotheses of C15_closed_form_equals_posterior_mean, decided by the model on this very instance
+        expr += " && check_hyps %s %s %s %s %s %s" % (cnat(m), cnat(n), cqmat(A_eff.tolist()), cqvec(meta["b"]),
+                                                     c_gdesc(meta["ce"], m, computed.get("ce")), c_gdesc(meta["cx"], n, computed.get("cx")))
     return Case(expr=expr, meta=meta, cell=cell, kind="EXACT", impl_fail=fail, signature=sig if fail else "")
 
 
@@ -872,6 +1028,7 @@ def sample_oracle(meta, out):
 def case_sample(cuqi, meta, fixed, cell):
     out = run_sample(cuqi, meta)
     fail = sample_oracle(meta, out)
+    out["A_model"] = np.array(model_matrix(meta, out["A_eff"], out["computed"]), dtype=float)
     m, n = out["m"], out["n"]
     if out["obs"] == "ok" and out["samples"].shape != (n, n + 2):
         return Case(expr="false", meta=meta, cell=cell, kind="DECISION",
@@ -886,11 +1043,11 @@ def case_sample(cuqi, meta, fixed, cell):
     else:
         err, mu_l, L_l, s_l = c_obs(out["obs"]), [], [], []
     expr = "check_sample %s %s %s %s %s %s %s %s %s %s %s %s %s && %s" % (
-        cbool(fixed), cnat(m), cnat(n), cqmat(out["A_eff"].tolist()), cqvec(meta["b"]), cqvec(model_x0(meta, n)),
+        cbool(fixed), cnat(m), cnat(n), cqmat(out["A_model"].tolist()), cqvec(meta["b"]), cqvec(model_x0(meta, n)),
         c_gdesc(meta["ce"], m, out["computed"].get("ce")), c_gdesc(meta["cx"], n, out["computed"].get("cx")),
         err, cqvec(mu_l), cqmat(L_l), cqvec(meta["z"]), cqvec(s_l), cbool(out["flags"]))
     return Case(expr=expr, meta=meta, cell=cell, kind="EXACT", impl_fail=fail,
-                signature=(SIG_GEOM if meta.get("geom") in NONID else SIG_SAMPLE) if fail else "")
+                signature=((SIG_NONLIN if meta.get("geom") == "mapped_sq" else SIG_GEOM) if meta.get("geom") in NONID else SIG_SAMPLE) if fail else "")
 
 
 # ---------------------------------------------------------------------------------------------------------
@@ -955,7 +1112,15 @@ def case_cascade(cuqi, meta):
     try:
         BP = build_classes(cuqi, meta)
         joint = bool(meta.get("joint"))
-        has_grad = False if joint else observe_has_grad(BP)
+        probe_raises = False
+        if not joint:
+            try:
+                BP.posterior.gradient(np.zeros(BP.posterior.dim))
+            except (NotImplementedError, AttributeError):
+                pass
+            except Exception:
+                probe_raises = True
+        has_grad = False if (joint or probe_raises) else observe_has_grad(BP)
         sptm = False if joint else hasattr(BP.prior, "sqrtprecTimesMean")
         lsq = False if joint else hasattr(BP.likelihood.distribution, "sqrtprec")
         taken = []
@@ -966,12 +1131,14 @@ def case_cascade(cuqi, meta):
             except NotImplementedError:
                 taken.append("NotImplementedError")
             except Exception:
-                if not taken:
+                if not taken and probe_raises:
+                    taken.append("ProbeRaises")
+                elif not taken:
                     raise
     finally:
         cuqi.config.MAX_DIM_INV = old
     order = ["_sampleGibbs", "_sampleMapCholesky", "_sampleLinearRTO", "_sampleUGLA", "_sampleNUTS", "_samplepCN",
-             "_sampleRegularizedLinearRTO", "NotImplementedError"]
+             "_sampleRegularizedLinearRTO", "NotImplementedError", "ProbeRaises"]
     idx = order.index(taken[0]) if len(taken) == 1 and taken[0] in order else 99
     lin_gauss = (not joint) and meta["prior"] == "Gaussian" and meta["lik"] == "Gaussian" and meta["linear"] \
         and meta["n"] <= meta["max_dim_inv"] and meta["m"] <= meta["max_dim_inv"]
@@ -983,11 +1150,131 @@ def case_cascade(cuqi, meta):
         fail = "sample_posterior dispatched to %s" % (taken,)
     P = "(mk_pinfo %s %s %s %s %s %s)" % (cnat(DCLS.index(meta["prior"]) if meta["prior"] in DCLS else 7),
                                           cnat(DCLS.index(meta["lik"]) if meta["lik"] in DCLS else 7), cbool(meta["linear"]), cnat(meta["m"]), cnat(meta["n"]), cbool(has_grad))
-    expr = "check_cascade %s %s %s %s %s %s" % (cbool(joint), P, cbool(sptm), cbool(lsq), cnat(meta["max_dim_inv"]), cnat(idx))
+    expr = "check_cascade_x %s %s %s %s %s %s %s" % (cbool(joint), P, cbool(sptm), cbool(lsq), cnat(meta["max_dim_inv"]), cbool(probe_raises), cnat(idx))
     return Case(expr=expr, meta=meta, cell="cascade/%s%s,%s,%s/%s%s" % (meta["prior"], "(sub)" if meta.get("subclass") else "", meta["lik"],
                                                                       "linear" if meta["linear"] else ("general" if meta.get("model_grad", True) else "general-nograd"),
                                                                       "joint" if joint else meta["dimcls"], "/exp" if meta.get("experimental") else ""),
                 kind="DECISION", impl_fail=fail, signature=SIG_ROUTE if fail else "")
+
+
+HANDOVER_CLASSES = {"LinearRTO": 2, "UGLA": 3, "NUTS": 4, "pCN": 5, "PCN": 5, "RegularizedLinearRTO": 6}
+
+
+def case_handover(cuqi, meta):
+    """which sampler class sample_posterior builds, with which arguments, which calls it makes on it and what it returns"""
+    old = cuqi.config.MAX_DIM_INV
+    cuqi.config.MAX_DIM_INV = meta["max_dim_inv"]
+    rec = {"built": [], "calls": []}
+
+    class _Result:
+        def __init__(self, tag):
+            self.tag = tag
+
+        def burnthin(self, nb):
+            rec["calls"].append(("burnthin", (nb,)))
+            return _Result("burnthin")
+
+    def mk(module, name):
+        class Stub:
+            def __init__(self, *a, **k):
+                rec["built"].append((module, name, a, k))
+
+            def sample(self, *a):
+                rec["calls"].append(("sample", a))
+                return _Result("sample")
+
+            def sample_adapt(self, *a):
+                rec["calls"].append(("sample_adapt", a))
+                return _Result("sample_adapt")
+
+            def warmup(self, *a):
+                rec["calls"].append(("warmup", a))
+                return self
+
+            def get_samples(self):
+                rec["calls"].append(("get_samples", ()))
+                return _Result("get_samples")
+        return Stub
+    names_l = [nm for nm in dir(cuqi.sampler) if isinstance(getattr(cuqi.sampler, nm), type)]
+    names_e = [nm for nm in dir(cuqi.experimental.mcmc) if isinstance(getattr(cuqi.experimental.mcmc, nm), type)]
+    user_cb = (lambda s, i: None) if meta.get("callback") else None
+    try:
+        BP = build_classes(cuqi, meta)
+        with _Patch(cuqi.sampler, **{nm: mk("legacy", nm) for nm in names_l}), \
+                _Patch(cuqi.experimental.mcmc, **{nm: mk("experimental", nm) for nm in names_e}):
+            kw = {"experimental": bool(meta.get("experimental"))}
+            if meta.get("Nb") is not None:
+                kw["Nb"] = meta["Nb"]
+            if user_cb is not None:
+                kw["callback"] = user_cb
+            ret = quiet(BP.sample_posterior, meta["Ns"], **kw)
+    finally:
+        cuqi.config.MAX_DIM_INV = old
+    fail = None
+    if len(rec["built"]) != 1:
+        return Case(expr="false", meta=meta, cell="handover/%s/none-or-several-built" % meta["expect"], kind="DECISION",
+                    impl_fail=None)
+    module, name, a, k = rec["built"][0]
+    cidx = HANDOVER_CLASSES.get(name, 0)
+    target_ok = len(a) >= 1 and a[0] is BP.posterior
+    scale = a[1] if len(a) > 1 else None
+    k = dict(k)
+    cb_ok = ("callback" in k) and (k.pop("callback") is user_cb)
+    regopts = k == {"maxit": 100, "stepsize": "automatic", "abstol": 1e-10}
+    other_kw_ok = regopts or k == {}
+    def enc(c):
+        nm, args = c
+        if nm == "sample" and len(args) == 2:
+            return "RSample %s %s" % (cnat(args[0]), cnat(args[1]))
+        if nm == "sample" and len(args) == 1:
+            return "RSampleN %s" % cnat(args[0])
+        if nm == "sample_adapt" and len(args) == 2:
+            return "RSampleAdapt %s %s" % (cnat(args[0]), cnat(args[1]))
+        if nm == "warmup" and len(args) == 1:
+            return "RWarmup %s" % cnat(args[0])
+        if nm == "get_samples":
+            return "RGetSamples"
+        if nm == "burnthin":
+            return "RBurnthin %s" % cnat(args[0])
+        return "RSampleN 4999%nat"
+    last = rec["calls"][-1][0] if rec["calls"] else None
+    returned_ok = isinstance(ret, _Result) and ret.tag == last and len(a) <= 2 and other_kw_ok
+    expr = "check_handover %s %s %s %s %s %s %s %s %s %s %s %s" % (
+        cnat(cidx), cbool(bool(meta.get("experimental"))), cnat(meta["Ns"]), copt(meta.get("Nb"), cnat),
+        cbool(module == "experimental"), cnat(cidx), copt(scale, cq), cbool(regopts),
+        clist(["(%s)" % enc(c) for c in rec["calls"]]), cbool(target_ok), cbool(cb_ok), cbool(returned_ok))
+    # the property's part of the hand-over: the requested numbers of draws / burn-in reach the sampler unchanged
+    nb_eff = meta["Nb"] if meta.get("Nb") is not None else int(0.2 * meta["Ns"])
+    nums = [x for c in rec["calls"] for x in c[1]]
+    if name != meta["expect"] and not (name == "PCN" and meta["expect"] == "pCN"):
+        fail = None       # a different sampler: the cascade cells judge that
+    return Case(expr=expr, meta=meta, cell="handover/%s/%s/Nb:%s/cb:%s" % (meta["expect"], "exp" if meta.get("experimental") else "legacy",
+                                                                           meta.get("Nb"), bool(meta.get("callback"))),
+                kind="DECISION", impl_fail=fail)
+
+
+def gen_handover_metas(ctx):
+    rng = ctx.rng
+    out = []
+    targets = [("LinearRTO", dict(prior="Gaussian", lik="Gaussian", linear=True, max_dim_inv=2)),
+               ("LinearRTO", dict(prior="GMRF", lik="Gaussian", linear=True, max_dim_inv=2000)),
+               ("UGLA", dict(prior="LMRF", lik="Gaussian", linear=True, max_dim_inv=2000)),
+               ("NUTS", dict(prior="Cauchy", lik="Gaussian", linear=True, max_dim_inv=2000)),
+               ("NUTS", dict(prior="Gaussian", lik="Gaussian", linear=False, model_grad=True, max_dim_inv=2000)),
+               ("pCN", dict(prior="Gaussian", lik="Gaussian", linear=False, model_grad=False, max_dim_inv=2000)),
+               ("RegularizedLinearRTO", dict(prior="RegularizedGaussian", lik="Gaussian", linear=True, max_dim_inv=2000))]
+    k = 0
+    for expect, cfg in targets:
+        for experimental in (False, True):
+            for Nb in (None, 0, 3):
+                for cb in (False, True):
+                    k += 1
+                    Ns = [5, 7, 10, 14, 1][k % 5]
+                    m, n = 2, 3
+                    meta = dict(cfg, op="handover", expect=expect, experimental=experimental, Nb=Nb, callback=cb, Ns=Ns, m=m, n=n,
+                                A=gen_A(rng, m, n), b=[dy(rng) for _ in range(m)])
+                    out.append(meta)
+    return out
 
 
 def observe_has_grad(BP):
@@ -1316,7 +1603,7 @@ def case_ml(cuqi, meta):
     P = "(mk_pinfo %s %s %s %s %s %s)" % (cnat(0), cnat(0), cbool(linear), cnat(m), cnat(n), cbool(True))
     cell = "ml/%s/Ce:%s%s/%s/x0:%s" % (meta["model"], meta["ce"]["kind"] + (":const" if meta.get("constvec") else ""),
                                        "" if meta["ce"]["param"] == "cov" else "/param:" + meta["ce"]["param"],
-                                       "under" if m < n else ("square" if m == n else "over"),
+                                       "rank-deficient" if meta.get("rankdef") else ("under" if m < n else ("square" if m == n else "over")),
                                        meta["x0arg"]["rel"] if meta.get("x0arg") else "default")
     if exc is not None:
         return Case(expr="false", meta=meta, cell=cell, kind="DECISION",
@@ -1331,7 +1618,17 @@ def case_ml(cuqi, meta):
     route_expr = "check_entry_route true %s %s %s %s" % (P, cnat(2000), cnat(label_of(r.info)), cbool(bool(spy.ran)))
     if not (isinstance(r, cuqi.array.CUQIarray) and r.geometry is BP.likelihood.geometry and x.shape == (n,)):
         fail = "ML result is not a CUQIarray of the parameter dimension on the likelihood's geometry"
-    if m >= n:
+    if meta.get("rankdef"):
+        # the maximisers form an affine set: exactly the solutions of the normal equations A^T Pe A x = A^T Pe b
+        lhs = f_mv(f_mm(f_mm(At, Pe), A), [F(v) for v in x.tolist()])
+        rhs = f_mv(At, f_mv(Pe, b))
+        if fail is None and not close_v(lhs, rhs, tol=5e-5):
+            fail = "ML returned %s (success=%s) which does not satisfy the normal equations: A^T Pe A x = %s, A^T Pe b = %s" % (
+                x, r.info.get("success"), [float(v) for v in lhs], [float(v) for v in rhs])
+        ge_exact = {"param": "cov", "kind": "matrix", "val": Ce}
+        expr = "check_ml_stationary %s %s %s %s %s %s && %s" % (cnat(m), cnat(n), cqmat(A_eff.tolist()), cqvec(meta["b"]), c_gdesc(ge_exact, m),
+                                                               cqvec(x.tolist()), route_expr)
+    elif m >= n:
         ref = f_mv(f_inv(f_mm(f_mm(At, Pe), A)), f_mv(At, f_mv(Pe, b)))
         if fail is None and not close_v(x, ref, tol=5e-5):
             fail = "ML returned %s (info solver=%s success=%s) but the weighted least-squares maximiser of the likelihood is %s" % (
@@ -1396,6 +1693,26 @@ def gen_ml_metas(ctx):
                 if k % 3 == 0:
                     meta["disp"] = bool(k % 2)
                 out.append(meta)
+    # rank-deficient systems (a repeated / a zero column, a repeated row pattern): ML is not unique
+    for ke in ("scalar", "vector", "matrix"):
+        for (m, n) in [(3, 3), (4, 3), (3, 2), (2, 3)]:
+            for kind in ("dupcol", "zerocol"):
+                for rep in range(ctx.n(1, 3)):
+                    k += 1
+                    c = dict(m=m, n=n, ke=ke, kx="scalar", pe="cov", px="cov", model=forms[k % 3], geom="default", mean="vec")
+                    meta = instantiate(rng, c, op="ml")
+                    A = np.array(meta["A"], dtype=float)
+                    if kind == "dupcol":
+                        A[:, n - 1] = A[:, 0] * rng.choice([1, 2, -1])
+                    else:
+                        A[:, rng.randrange(n)] = 0.0
+                    if m < n:
+                        A[m - 1, :] = A[0, :]                 # also row-rank deficient: A x = b has no solution in general
+                    meta["A"] = A.tolist()
+                    meta["rankdef"] = kind
+                    if ke == "vector" and len(set(meta["ce"]["val"])) == 1:
+                        meta["ce"]["val"][0] *= 4
+                    out.append(meta)
     return out
 
 
@@ -1434,6 +1751,8 @@ def dispatch(cuqi, meta, fixed, cell=""):
         return case_route(cuqi, meta)
     if op == "cascade":
         return case_cascade(cuqi, meta)
+    if op == "handover":
+        return case_handover(cuqi, meta)
     if op == "setup":
         return case_setup(cuqi, meta)
     if op == "opt":
@@ -1472,7 +1791,7 @@ def gen_cascade_metas(ctx):
     priors = ["Gaussian", "GMRF", "LMRF", "CMRF", "Laplace", "Cauchy", "RegularizedGaussian", "RegularizedGMRF", "Beta",
               "InverseGamma", "Lognormal", "Other"]
     for prior in priors:
-        for lik in ["Gaussian", "Laplace"]:      # a Cauchy likelihood makes the gradient probe raise TypeError (crash, no choice made)
+        for lik in ["Gaussian", "Laplace", "Cauchy"]:      # a Cauchy likelihood makes the gradient probe raise TypeError when the cascade gets that far
             for linear, mg in [(True, True), (False, True), (False, False)]:
                 for dimcls in (["below", "n-above"] if prior != "Gaussian" else list(DIMCLS)):
                     m, n, md = DIMCLS[dimcls]
@@ -1557,6 +1876,8 @@ def run(ctx):
         ctx.note("vector-covariance repair applied to one of the two covariances only (noise wrong=%s, prior wrong=%s)" % (bool(bad_noise), bool(bad_prior)))
     fixed = not bad_noise
     ctx.note("state of the repairable defect (1-d covariance in the closed form): fixed=%s" % fixed)
+    GEOM_FIXED[0] = probe_geom_fixed(cuqi)
+    ctx.note("state of fixes/C07_get_matrix_parameter_map.diff (get_matrix of a matrix model with a non-identity geometry): applied=%s" % GEOM_FIXED[0])
     cases = []
     cells = lattice_map(ctx)
     reps = ctx.n(1, 6)
@@ -1597,6 +1918,8 @@ def run(ctx):
         cases.append(case_route(cuqi, meta))
     for meta in gen_cascade_metas(ctx):
         cases.append(case_cascade(cuqi, meta))
+    for meta in gen_handover_metas(ctx):
+        cases.append(case_handover(cuqi, meta))
     for meta in gen_setup_metas(ctx):
         cases.append(case_setup(cuqi, meta))
     for meta in gen_opt_metas(ctx):
@@ -1620,6 +1943,7 @@ def run(ctx):
 def oracle(ctx, meta):
     import cuqi
     bad_noise, _, _, _ = probe_fixed(cuqi)
+    GEOM_FIXED[0] = probe_geom_fixed(cuqi)
     c = dispatch(cuqi, meta, not bad_noise)
     return c.impl_fail
 
@@ -1629,11 +1953,11 @@ def classify(meta, detail):
     if op == "map":
         A = meta["A"]
         if meta.get("geom") in NONID:
-            return SIG_GEOM
+            return SIG_NONLIN if meta.get("geom") == "mapped_sq" else SIG_GEOM
         return classify_map(meta, len(A), len(A[0]))
     if op == "sample" and meta.get("geom") in NONID:
-        return SIG_GEOM
-    return {"sample": SIG_SAMPLE, "route": SIG_ROUTE, "cascade": SIG_ROUTE, "setup": SIG_SETUP, "opt": SIG_OPT, "optng": SIG_OPT, "optns": SIG_NONSMOOTH, "ml": SIG_ML, "ccov": SIG_CCOV}.get(op, "C15")
+        return SIG_NONLIN if meta.get("geom") == "mapped_sq" else SIG_GEOM
+    return {"sample": SIG_SAMPLE, "route": SIG_ROUTE, "cascade": SIG_ROUTE, "handover": SIG_ROUTE, "setup": SIG_SETUP, "opt": SIG_OPT, "optng": SIG_OPT, "optns": SIG_NONSMOOTH, "ml": SIG_ML, "ccov": SIG_CCOV}.get(op, "C15")
 
 
 def search(ctx):
@@ -1656,9 +1980,10 @@ def replay(ctx, meta):
     print(json.dumps(meta, indent=1, default=str)[:6000])
     m = meta.get("meta", meta)
     if "witness" in m:
-        m = {SIG_NOISE: WITNESS_NOISE, SIG_PRIOR: WITNESS_PRIOR, SIG_GEOM: WITNESS_GEOM}.get(m["witness"], WITNESS_NONSMOOTH)
+        m = {SIG_NOISE: WITNESS_NOISE, SIG_PRIOR: WITNESS_PRIOR, SIG_GEOM: WITNESS_GEOM, SIG_NONLIN: WITNESS_NONLIN}.get(m["witness"], WITNESS_NONSMOOTH)
     bad_noise, _, _, _ = probe_fixed(cuqi)
     fixed = not bad_noise
+    GEOM_FIXED[0] = probe_geom_fixed(cuqi)
     c = dispatch(cuqi, m, fixed)
     print("repair state: fixed=%s" % fixed)
     if m.get("op") == "map":
